@@ -238,6 +238,8 @@ pub struct ParseDump {
     pub cache: usize,
     pub tokens: usize,
     pub non_trivia: usize,
+    /// nodes allocated in the syntax arena (work that the read counter does not see)
+    pub arena: usize,
 }
 
 /// Parses `t` with or without the memo table and dumps the result structurally.
@@ -270,6 +272,7 @@ fn parse_dump_inner(t: &str, cached: bool, limit: usize) -> ParseDump {
     let head = ctx.head();
     let r = parse_program(&mut ctx, head);
     let (reads, hits, cache) = ctx.verif_counters();
+    let arena = ctx.count();
     match r {
         Ok((s, root)) => {
             let stop_valid = s.is_valid();
@@ -306,6 +309,7 @@ fn parse_dump_inner(t: &str, cached: bool, limit: usize) -> ParseDump {
                 cache,
                 tokens,
                 non_trivia,
+                arena,
             }
         }
         Err(e) => ParseDump {
@@ -319,6 +323,7 @@ fn parse_dump_inner(t: &str, cached: bool, limit: usize) -> ParseDump {
             cache,
             tokens,
             non_trivia,
+            arena,
         },
     }
 }
